@@ -1762,7 +1762,11 @@ pub fn many_connections_faults(i: usize, case: &Case, obs: &Obs, secret: &[u8]) 
         want_kinds.push("StoreCookie");
     }
     want_kinds.extend(["StoreCookie", "Transfer"]);
-    if obs.kinds() != want_kinds || obs.garbled.is_some() || obs.partial_tail > 0 {
+    // (a player admitted by a cookie may be given a refreshed authentication cookie as well: no property forbids it)
+    let mut with_refresh = want_kinds.clone();
+    with_refresh.insert(with_refresh.len() - 1, "StoreCookie");
+    let order_ok = obs.kinds() == want_kinds || (returning && obs.kinds() == with_refresh);
+    if !order_ok || obs.garbled.is_some() || obs.partial_tail > 0 {
         v.push(("order", format!("connection #{i} of the process was answered with {:?} (undecodable {:?}); expected {want_kinds:?}", obs.kinds(), obs.garbled)));
     }
     if !returning {
